@@ -573,6 +573,12 @@ def split_multiple_persons_names(names):
 
         # Escaped character.
         if char == "\\":
+            # An escape is part of a name: it starts the next name if we were looking
+            # for one, and it cannot be part of an ' and ' separator.
+            if step == NEXT_WORD:
+                spans[-1].append(possible_end)
+                spans.append([pos - 1])
+            step = START_WHITESPACE
             try:
                 next(namesiter)
             # If we're at the end of the string, then the \ is just a \.
